@@ -54,7 +54,7 @@ GENE_PAYLOADS = {
        "EC_number, inference, transl_table",
     2: "input-style CDS with codon_start=2",
     3: "gene functions of several tools and kinds, sec_met domains",
-    4: "NRPS/PKS qualifier, three aSDomains (modular with subtype + specificity, plain with active sites), a complete "
+    4: "NRPS/PKS qualifier, three aSDomains (modular with subtype + specificity, plain with active sites and e-value 0.0), a complete "
        "starter module with monomers, a PFAM domain with gene ontologies, a CDS motif",
     5: "prepeptide with leader / core / tail and alternative weights, plus a CDS motif",
     6: "input-style CDS with codon_start=3 and a note",
@@ -202,7 +202,8 @@ class Driver:
             cds.gene_functions.add(GeneFunction.TRANSPORT, "smcogs", "SMCOG1000: ABC transporter ATP-binding protein")
             cds.gene_functions.add(GeneFunction.REGULATORY, "resist", "resistance; model: x_y (a, b)")
             cds.sec_met.add_domains([SecMetQualifier.Domain("PKS_KS", 1.5e-20, 120.5, 12, "rule-based-clusters"),
-                                     SecMetQualifier.Domain("p450", 2.5e-8, 33.25, 40, "rule-based-clusters")])
+                                     SecMetQualifier.Domain("p450", 2.5e-8, 33.25, 40, "rule-based-clusters"),
+                                     SecMetQualifier.Domain("adh_short", 0.0, 250.0, 3, "rule-based-clusters")])
         elif pay == 4:
             third = max(1, aminos // 3)
             spans = [(0, third), (third, 2 * third), (2 * third, aminos)]
@@ -222,7 +223,8 @@ class Driver:
                 domain.domain_id = dom_id
                 domain.label = f"{name}_{hit}{pos + 1}"
                 domain.score = 150.5 + pos
-                domain.evalue = 1.5e-30
+                # boundary values: an e-value that underflowed to zero (very strong hit), a bit score of exactly zero
+                domain.evalue = 0.0 if pos == 2 else 1.5e-30
                 domain.database = "nrpspksdomains.hmm"
                 domain.detection = "hmmscan"
                 domain.translation = cds.translation[start:end]
@@ -249,7 +251,7 @@ class Driver:
             motif = CDSMotif(self._sub(cds, 1, min(aminos, 4)), name, FeatureLocation(1, min(aminos, 4)), tool="motif_tool")
             motif.domain_id = f"motif_{name}_1"
             motif.label = "C1_dual_004-017"
-            motif.score = 12.5
+            motif.score = 0.0
             motif.evalue = 2.5e-3
             motif.detection = "hmmscan"
             motif.database = "abmotifs"
